@@ -3,7 +3,9 @@
 package spec
 
 import (
+	"encoding/json"
 	"fmt"
+	"strconv"
 	"reflect"
 	"regexp"
 	"sort"
@@ -490,3 +492,74 @@ func (s *Spec) ObjectByID(id string) *Spec {
 
 // P returns a pointer to v.
 func P[T any](v T) *T { return &v }
+
+// jsonFloat writes non-finite floats as strings so that specs with infinite bounds stay serialisable.
+type jsonFloat float64
+
+func (f jsonFloat) MarshalJSON() ([]byte, error) {
+	v := float64(f)
+	switch {
+	case v != v:
+		return []byte(`"NaN"`), nil
+	case v > 1.7976931348623157e308:
+		return []byte(`"Inf"`), nil
+	case v < -1.7976931348623157e308:
+		return []byte(`"-Inf"`), nil
+	}
+	return json.Marshal(v)
+}
+
+func (f *jsonFloat) UnmarshalJSON(b []byte) error {
+	var s string
+	if json.Unmarshal(b, &s) == nil {
+		v, err := strconv.ParseFloat(s, 64)
+		if err != nil {
+			return err
+		}
+		*f = jsonFloat(v)
+		return nil
+	}
+	var v float64
+	if err := json.Unmarshal(b, &v); err != nil {
+		return err
+	}
+	*f = jsonFloat(v)
+	return nil
+}
+
+type specAlias Spec
+
+type specJSON struct {
+	specAlias
+	FMin *jsonFloat `json:"fmin,omitempty"`
+	FMax *jsonFloat `json:"fmax,omitempty"`
+}
+
+// MarshalJSON keeps infinite float bounds representable.
+func (s Spec) MarshalJSON() ([]byte, error) {
+	j := specJSON{specAlias: specAlias(s)}
+	j.specAlias.FMin, j.specAlias.FMax = nil, nil
+	if s.FMin != nil {
+		j.FMin = P(jsonFloat(*s.FMin))
+	}
+	if s.FMax != nil {
+		j.FMax = P(jsonFloat(*s.FMax))
+	}
+	return json.Marshal(j)
+}
+
+// UnmarshalJSON is the inverse of MarshalJSON.
+func (s *Spec) UnmarshalJSON(b []byte) error {
+	var j specJSON
+	if err := json.Unmarshal(b, &j); err != nil {
+		return err
+	}
+	*s = Spec(j.specAlias)
+	if j.FMin != nil {
+		s.FMin = P(float64(*j.FMin))
+	}
+	if j.FMax != nil {
+		s.FMax = P(float64(*j.FMax))
+	}
+	return nil
+}
